@@ -29,12 +29,17 @@
    issued the next one; any pattern of directions, alternating chains included), for EVERY k, there is a
    schedule of at most 8k steps - only steps of the chain's own goroutines and deliveries of its own
    response frames - in which every call of the chain returns, innermost first.  The premises say
-   nothing about any other goroutine of either endpoint.  [chain_state_reachable] exhibits a reachable
-   state with an alternating chain of depth 3.
+   nothing about any other goroutine of either endpoint.  The premises are met at every depth:
+   [chain_extends] - from every such state an unstarted call of either side whose function stays inside
+   application code makes whatever chain there is one level deeper in five steps, all existing levels
+   untouched - and [chains_of_every_depth]: for every k there is a run of the closed system that builds an
+   alternating chain of depth k (level m is call m of side A for even m, of side B for odd m);
+   [every_depth_chain_completes] puts the two together.  [chain_state_reachable] is the depth-3 instance
+   by computation.
    What stays outside the model: application code is opaque in Link.v - "the handler resumes once the
    call it made has returned" is a step the schedule takes, not a consequence of a handler program; and
    the fairness that makes the scheduler actually take these steps is the Go runtime's. *)
-From Verif Require Import Base Link LinkProofs LinkInvB LinkInvK LinkInvQ LinkFrame LinkUp LinkChain Pair PairProofs PairProgress Duo DuoChain.
+From Verif Require Import Base Link LinkProofs LinkInvB LinkInvK LinkInvQ LinkFrame LinkUp LinkChain LinkFresh Pair PairProofs PairProgress Duo DuoChain DuoBuild.
 
 Theorem request_loop_never_waits_for_handlers :
   forall calls s f arg,
@@ -253,3 +258,41 @@ Proof.
   exists d, l, d'. split; [exact Hr|]. split; [exact Hc|exact Hl].
 Qed.
 Print Assumptions depth_three_chain_completes.
+
+(* the premises of chain_completes are met at every depth *)
+Theorem chain_extends :
+  forall fnA fnB cA cB l0 d dir j cs levels,
+    drun fnA fnB cA cB dinit l0 = Some d -> Up (da d) -> Up (db d) -> Forall (LevelOk d) levels ->
+    tget (threads (ep dir d)) (TCall j) = None -> nth_error (if dir then cA else cB) j = Some cs -> c_closure cs = false ->
+    (if dir then fnA else fnB) j = FGated ->
+    exists l d' lv,
+      length l = 5 /\ drun fnA fnB cA cB d l = Some d' /\ Up (da d') /\ Up (db d') /\
+      LevelOk d' lv /\ lv_dir lv = dir /\ lv_i lv = j /\ lv_arg lv = c_arg cs /\
+      Forall (LevelOk d') levels /\ Forall (distinct lv) levels /\
+      (forall sd j', (sd = dir -> j' <> j) -> Fresh j' 0 (ep sd d) -> Fresh j' 0 (ep sd d')).
+Proof. exact chain_extends_lemma. Qed.
+Print Assumptions chain_extends.
+
+Theorem chains_of_every_depth :
+  forall K k, k <= K ->
+    exists sched d levels,
+      drun gfn gfn (repeat c0 K) (repeat c0 K) dinit sched = Some d /\ Up (da d) /\ Up (db d) /\
+      Forall (LevelOk d) levels /\ ForallOrdPairs distinct levels /\ length levels = k /\
+      (forall m lv, nth_error (rev levels) m = Some lv -> lv_dir lv = Nat.even m /\ lv_i lv = m) /\
+      (forall sd j, k <= j -> Fresh j 0 (ep sd d)).
+Proof. exact chains_of_every_depth_lemma. Qed.
+Print Assumptions chains_of_every_depth.
+
+(* for every depth k: a run of the closed system that builds an alternating chain of depth k, and a schedule of
+   at most 8k further steps - the chain's own - in which all k calls return, innermost first *)
+Theorem every_depth_chain_completes :
+  forall k, exists sched d levels l d',
+    drun gfn gfn (repeat c0 k) (repeat c0 k) dinit sched = Some d /\ length levels = k /\
+    (forall m lv, nth_error (rev levels) m = Some lv -> lv_dir lv = Nat.even m /\ lv_i lv = m) /\
+    completes gfn gfn (repeat c0 k) (repeat c0 k) d levels l d' /\ length l <= 8 * k.
+Proof.
+  intros k. destruct (chains_of_every_depth_lemma k k (le_n k)) as (sched & d & levels & Hr & HUa & HUb & Hok & Hdis & Hlen & Halt & _).
+  destruct (chain_completes_lemma gfn gfn (repeat c0 k) (repeat c0 k) levels sched d Hr HUa HUb Hok Hdis) as (l & d' & Hc & Hl & _).
+  exists sched, d, levels, l, d'. rewrite Hlen in Hl. auto.
+Qed.
+Print Assumptions every_depth_chain_completes.
